@@ -74,6 +74,8 @@ func checkC18(w *World, r *Report) {
 	r.Rule("R18.3", 4, "context linkage: a scope's context is WithValue(parent, scopeContextKey{}, thatScope); the parent is the context derived by WithCancel from the caller's context, or from the parent scope's context (scope) / Background (provider) when the caller passes nil")
 	r.Rule("R18.4", 2, "scopeContextKey is unexported and used only to store the scope and in FromContext, which asserts the value to Scope")
 	r.Rule("R18.5", 2, "every registration passes the reserved-type test on the Type of the descriptor being inserted")
+	r.Rule("R18.6", 10, "built-ins reach constructors in every form of parameter: the field walkers skip only unexported fields, the embedded In/Out marker and inject:\"-\" (an embedded context.Context / Scope / Provider field is injected)")
+	r.Try(func() { ruleFieldFilters(w, r, "R18.6") })
 
 	// ---- R18.1
 	ruleBuiltins(w, r, ro)
